@@ -396,7 +396,11 @@ where
     }
 
     fn start_list(&mut self, len: Self::Size) -> Result<Self::Size, Self::Error> {
-        let allocation_size = len * 2;
+        // a length taken from a huge range (e.g. a float bound) may not have a doubled size at all
+        let allocation_size = match len.checked_mul(2) {
+            Some(size) => size,
+            None => return Err(DataError::from(format!("A list of length {} is too large to allocate", len))),
+        };
         let list_index = self.push_to_data_block(BasicData::UninitializedList(len, 0))?;
         for _ in 0..allocation_size {
             self.push_to_data_block(BasicData::Empty)?;
